@@ -91,7 +91,7 @@ macro_rules! lemma {
 lemma!(c07_x_lemma_int_int, int_small(), int_small(), [Less, Equal, Greater]);
 lemma!(c07_t_lemma_int_uint, int_small(), uint::<1>(), [Less, Equal, Greater]);
 lemma!(c07_t_lemma_int_nint, int_small(), nint::<1>(), [Less, Equal, Greater]);
-lemma!(c07_x_lemma_uint_int, uint::<1>(), int_small(), [Less, Equal, Greater]);
+lemma!(c07_t_lemma_uint_int, uint::<1>(), int_small(), [Less, Equal, Greater]);
 lemma!(c07_q_lemma_uint_uint, uint::<1>(), uint::<1>(), [Less, Equal, Greater]);
 lemma!(c07_q_lemma_uint_nint, uint::<1>(), nint::<1>(), [Equal, Greater]);
 lemma!(c07_t_lemma_nint_int, nint::<1>(), int_small(), [Less, Equal, Greater]);
@@ -101,16 +101,16 @@ lemma!(c07_q_lemma_nint_nint, nint::<1>(), nint::<1>(), [Less, Equal, Greater]);
 lemma!(c07_q_lemma_uint0_nint0, uint::<0>(), nint::<0>(), [Equal]);
 lemma!(c07_t_lemma_nint0_int, nint::<0>(), int_small(), [Less, Equal, Greater]);
 lemma!(c07_t_lemma_int_uint0, int_small(), uint::<0>(), [Less, Equal, Greater]);
-lemma!(c07_x_lemma_uint2_uint1, uint::<2>(), uint::<1>(), [Less, Equal, Greater]);
-lemma!(c07_x_lemma_nint2_nint1, nint::<2>(), nint::<1>(), [Less, Equal, Greater]);
+lemma!(c07_t_lemma_uint2_uint1, uint::<2>(), uint::<1>(), [Less, Equal, Greater]);
+lemma!(c07_t_lemma_nint2_nint1, nint::<2>(), nint::<1>(), [Less, Equal, Greater]);
 lemma!(c07_x_lemma_uint2_int, uint::<2>(), int_small(), [Less, Equal, Greater]);
 lemma!(c07_x_lemma_int_nint2, int_small(), nint::<2>(), [Less, Equal, Greater]);
 lemma!(c07_x_lemma_nint2_uint2, nint::<2>(), uint::<2>(), [Less, Equal]);
 // bound: Int over the full i64 range / the two 65-bit edge bands (-2^64..=-2^64+255, 2^64-256..=2^64-1); byte payloads 1 or 2 symbolic bytes; unwind 19
 lemma!(c07_x_lemma_i64_i64, int_i64(), int_i64(), [Less, Equal, Greater]);
-lemma!(c07_x_lemma_i64_uint1, int_i64(), uint::<1>(), [Less, Equal, Greater]);
+lemma!(c07_t_lemma_i64_uint1, int_i64(), uint::<1>(), [Less, Equal, Greater]);
 lemma!(c07_t_lemma_nint1_i64, nint::<1>(), int_i64(), [Less, Equal, Greater]);
-lemma!(c07_x_lemma_edge_edge, int_edge(), int_edge(), [Less, Equal, Greater]);
+lemma!(c07_t_lemma_edge_edge, int_edge(), int_edge(), [Less, Equal, Greater]);
 lemma!(c07_x_lemma_edge_i64, int_edge(), int_i64(), [Less, Greater]);
 lemma!(c07_x_lemma_edge_uint2, int_edge(), uint::<2>(), [Less, Greater]);
 lemma!(c07_x_lemma_nint2_edge, nint::<2>(), int_edge(), [Less, Greater]);
@@ -251,7 +251,7 @@ bb_roundtrip!(c07_q_bytes_rt_1, 1, 8);
 bb_roundtrip!(c07_t_bytes_rt_64, 64, 72);
 bb_roundtrip!(c07_t_bytes_rt_65, 65, 80);
 bb_roundtrip!(c07_t_bytes_rt_63, 63, 72);
-bb_roundtrip!(c07_x_bytes_rt_128, 128, 140);
+bb_roundtrip!(c07_t_bytes_rt_128, 128, 140);
 bb_roundtrip!(c07_t_bytes_rt_129, 129, 144);
 
 macro_rules! indef_split {
